@@ -40,6 +40,11 @@ CHECKS = {
    text="Runtime monitoring of repeated executions: the same input goes N times through the real pipeline in one process (13 reports from identifier/full model to concept list) and M times through the CLI pipeline in fresh processes (19 outputs), plus git summaries, cloc and the Go front-end; outputs are canonicalised exactly as far as the statement allows (function order inside a type free, reports as collections, promised orders on untied keys) and compared. Go's per-range random map start is the schedule being sampled; the evidence reports how many distinct function orders were observed.",
    technique="repetition monitor over canonicalised outputs of real runs (in-process and fresh processes), sampling map-iteration schedules",
    design="§4 C08"),
+ "C09": dict(
+   text="Runtime crash monitoring: accepted Java files from three sources - a hand-written generator over the Java-17 constructs of the shipped grammar (enums, records, annotation types, sealed types, nested/local/anonymous classes, generic methods/constructors, this(...)/super(...), inner creators, every statement and expression form, annotations in every position incl. type annotations on qualified types, non-ASCII identifiers, Spring mappings, TODO comments), a generic sentence sampler over the rule text of the shipped JavaParser.g4/JavaLexer.g4, and every fixture file under token-level semantics-preserving rewrites - are run through the identifier pass, full pass, bad-smell pass, API scan, refactoring scan and todo scan under recover(), each result is serialised, an unusual file is analysed together with ordinary files (their types must be present), and the CLI commands must exit 0 without a trace; crashes are de-duplicated by pass and first coca frame.",
+   technique="grammar-directed hostile workloads + recover()/process-death crash monitor per pass, CLI exit-status monitor",
+   design="§4 C09"),
+
  "C10": dict(
    text="Runtime monitoring: generated classes/interfaces with planted declaration lines, closing-brace lines, parameter counts, top-level if/switch counts, condition spans and method mixes, bounded-exhaustive at T-2..T+2 of every documented threshold (263 boundary points) and random elsewhere, x all 128 ignore subsets on boundary projects, run through BadSmellApp.AnalysisPath + IdentifyBadSmell, SortSmellByType and `coca bs [-x] [-s type]`; monitor: multiset equality of the seven documented kinds with the truth table (file, line, size), ignore removes exactly the named kinds, sort order non-increasing per sized kind.",
    technique="bounded-exhaustive threshold workloads with planted truth + offline truth-table monitor",
